@@ -9,11 +9,12 @@ from vlib import common, poolcheck, values
 
 
 def expected_dumps(M, L, vals, size):
-    ra = M.dump_message(L, vals, with_consts=True)
+    ra = M.dump_message(L, vals, with_consts=True, null_flags=True)
+    tag = M.dump_message(L, vals, with_consts=True)
     cur = M.dump_message(L, vals, with_consts=False, comp_consts=True)
     vis = M.dump_message(L, vals, with_consts=False, comp_consts=False, vis_extras=True)
     tail = "cursor_end=%d" % size
-    return {"ra": ra, "tag": ra, "cur": (cur + " " + tail + " cursor_size=%d" % size).strip(), "vis": (vis + " " + tail).strip()}
+    return {"ra": ra, "tag": tag, "cur": (cur + " " + tail + " cursor_size=%d" % size).strip(), "vis": (vis + " " + tail).strip()}
 
 
 def first_diff(a, b):
